@@ -42,12 +42,12 @@ type F struct {
 	Num    int32  `json:"num"`
 	Kind   string `json:"kind"`
 	Card   string `json:"card"`
-	Unpack bool   `json:"unpack,omitempty"` // [packed=false] for repeated numerics
-	Oneof  string `json:"oneof,omitempty"`
-	Type   string `json:"type,omitempty"` // fully-qualified (leading dot) message or enum type
-	KK     string `json:"kk,omitempty"`   // map key kind
-	VK     string `json:"vk,omitempty"`   // map value kind
-	VType  string `json:"vtype,omitempty"`
+	Unpack bool   `json:"unpack"` // [packed=false] for repeated numerics
+	Oneof  string `json:"oneof"`
+	Type   string `json:"type"` // fully-qualified (leading dot) message or enum type
+	KK     string `json:"kk"`   // map key kind
+	VK     string `json:"vk"`   // map value kind
+	VType  string `json:"vtype"`
 }
 
 type EV struct {
@@ -61,23 +61,85 @@ type E struct {
 type M struct {
 	Name   string   `json:"name"`
 	Fields []F      `json:"fields"`
-	Oneofs []string `json:"oneofs,omitempty"` // declaration order
-	Nested []M      `json:"nested,omitempty"`
-	Enums  []E      `json:"enums,omitempty"`
+	Oneofs []string `json:"oneofs"` // declaration order
+	Nested []M      `json:"nested"`
+	Enums  []E      `json:"enums"`
 }
 type File struct {
 	Name   string   `json:"name"`   // e.g. verif/s0/s0.proto
 	Pkg    string   `json:"pkg"`    // proto package, e.g. verif.s0
 	GoPkg  string   `json:"gopkg"`  // last path element under GenPath
 	Syntax string   `json:"syntax"` // proto3 / proto2
-	Deps   []string `json:"deps,omitempty"`
+	Deps   []string `json:"deps"`
 	Msgs   []M      `json:"msgs"`
-	Enums  []E      `json:"enums,omitempty"`
+	Enums  []E      `json:"enums"`
 	// Group names a unit that is generated+compiled together; a failure of one group does
 	// not take the others down.
 	Group string `json:"group"`
 	// Tags: free-form labels ("model", "matrix", "names", "random", "probe:<finding>")
-	Tags []string `json:"tags,omitempty"`
+	Tags []string `json:"tags"`
+}
+
+// Canon replaces nil slices by empty ones so that the JSON form always carries every key as an
+// array (TLC's JSON reader has no null).
+func (f *File) Canon() *File {
+	if f.Deps == nil {
+		f.Deps = []string{}
+	}
+	if f.Syntax == "" {
+		f.Syntax = "proto3"
+	}
+	if f.Enums == nil {
+		f.Enums = []E{}
+	}
+	if f.Tags == nil {
+		f.Tags = []string{}
+	}
+	var fix func(ms []M)
+	fix = func(ms []M) {
+		for i := range ms {
+			if ms[i].Oneofs == nil {
+				ms[i].Oneofs = []string{}
+			}
+			if ms[i].Nested == nil {
+				ms[i].Nested = []M{}
+			}
+			if ms[i].Enums == nil {
+				ms[i].Enums = []E{}
+			}
+			if ms[i].Fields == nil {
+				ms[i].Fields = []F{}
+			}
+			fix(ms[i].Nested)
+		}
+	}
+	if f.Msgs == nil {
+		f.Msgs = []M{}
+	}
+	fix(f.Msgs)
+	return f
+}
+
+// KnownTypes lists every type name (leading dot) the corpus files may reference.
+func KnownTypes(files []*File) []string {
+	out := []string{".google.protobuf.Any", ".google.protobuf.Timestamp", ".google.protobuf.Duration", ".google.protobuf.FieldMask"}
+	for _, f := range files {
+		var walk func(prefix string, ms []M)
+		walk = func(prefix string, ms []M) {
+			for _, m := range ms {
+				out = append(out, prefix+"."+m.Name)
+				for _, e := range m.Enums {
+					out = append(out, prefix+"."+m.Name+"."+e.Name)
+				}
+				walk(prefix+"."+m.Name, m.Nested)
+			}
+		}
+		walk("."+f.Pkg, f.Msgs)
+		for _, e := range f.Enums {
+			out = append(out, "."+f.Pkg+"."+e.Name)
+		}
+	}
+	return out
 }
 
 func (f *File) GoImportPath() string { return GenPath + "/" + f.GoPkg }
@@ -562,6 +624,20 @@ func Cross() []*File {
 		Deps: []string{"verif/xb/xb.proto"},
 		Msgs: []M{{Name: "Second", Fields: []F{one("leaf", 1, "message", ".verif.xb.Leaf"), one("note", 2, "string")}}}}
 	return []*File{xb, xa2, xa}
+}
+
+// PluginUniverse is the file universe of spec/Plugin.tla: A (proto3), B (proto3, imports A, other
+// Go package), C (proto3, same Go package as A), D (proto2), E (proto3, unrelated).
+func PluginUniverse() map[string]*File {
+	cross := Cross()
+	a, b := cross[0], cross[2]
+	c := &File{Name: "verif/xb/xb2.proto", Pkg: "verif.xb", GoPkg: "xb", Group: "x", Deps: []string{"verif/xb/xb.proto"},
+		Msgs: []M{{Name: "Branch", Fields: []F{one("leaf", 1, "message", ".verif.xb.Leaf"), rep("tags", 2, "string")}}}}
+	d := &File{Name: "verif/p2/p2.proto", Pkg: "verif.p2", GoPkg: "p2", Group: "p2", Syntax: "proto2",
+		Msgs: []M{{Name: "Old", Fields: []F{one("a", 1, "int32"), one("b", 2, "string")}}}}
+	e := &File{Name: "verif/ex/ex.proto", Pkg: "verif.ex", GoPkg: "ex", Group: "ex",
+		Msgs: []M{{Name: "Lone", Oneofs: []string{"z"}, Fields: []F{one("a", 1, "sint64"), mp("m", 2, "string", "double"), oo("z", "zz", 3, "bool")}}}}
+	return map[string]*File{"A": a, "B": b, "C": c, "D": d, "E": e, "xa2": cross[1]}
 }
 
 // AllStatic returns the static corpus in dependency order.
